@@ -65,7 +65,7 @@ Section C10.
     | [] => ([], Ok tt)
     | f :: rest =>
       match getattr h r (f_name f) with
-      | None => ([], Raise AttributeErrorC)
+      | None => ([], Raise PTypeCheckC)
       | Some v =>
         match check vis h (f_ann f) v with
         | Ok _ => (ECheck (f_ann f) v :: fst (checks_prefix vis h r rest), snd (checks_prefix vis h r rest))
@@ -80,7 +80,7 @@ Section C10.
   Proof.
     induction fs as [|f fs IH]; intros r st; simpl.
     - unfold ret. now rewrite st_app_nil.
-    - unfold bindM at 1. unfold getattrM. destruct (getattr (s_heap st) r (f_name f)) as [v|] eqn:E.
+    - unfold bindM at 1. unfold checked_getattrM. destruct (getattr (s_heap st) r (f_name f)) as [v|] eqn:E.
       + unfold bindM at 1. unfold emit. unfold bindM at 1. unfold get_heap. cbn [s_heap s_journal].
         destruct (check vis (s_heap st) (f_ann f) v) as [[]|e] eqn:Ec.
         * rewrite IH. simpl. unfold st_app. simpl. now rewrite <- app_assoc.
